@@ -58,11 +58,11 @@ inductive Event (W : Type)
 /-- `Matching(H, spacelike_weights=w).decode(s, num_neighbours=None)` -/
 abbrev WSolver (W : Type) := Mat → List W → Vec → Vec
 
-inductive ErrType | all | X | Z
+inductive ErrType_dec | all | X | Z
   deriving Repr, DecidableEq
 
 /-- `if error_type not in ["X", "Z", None]: raise ValueError` -/
-def parseErrType : Option String → Except DecErr ErrType
+def parseErrType : Option String → Except DecErr ErrType_dec
   | none => .ok .all
   | some "X" => .ok .X
   | some "Z" => .ok .Z
@@ -76,14 +76,14 @@ structure Matcher (W : Type) where
 structure MatchingDec (W : Type) where
   H : Mat
   n : Nat
-  errType : ErrType
+  errType : ErrType_dec
   /-- `self.matcher_x = Matching(self.code.Hz, spacelike_weights=wx)` -/
   matcherX : Option (Matcher W)
   /-- `self.matcher_z = Matching(self.code.Hx, spacelike_weights=wz)` -/
   matcherZ : Option (Matcher W)
 
-def ErrType.doesX (t : ErrType) : Bool := t == .all || t == .X
-def ErrType.doesZ (t : ErrType) : Bool := t == .all || t == .Z
+def ErrType_dec.doesX (t : ErrType_dec) : Bool := t == .all || t == .X
+def ErrType_dec.doesZ (t : ErrType_dec) : Bool := t == .all || t == .Z
 
 /-- `MatchingDecoder.__init__(code, error_model, error_rate, error_type, weights)`.
     `modelWeights` is `error_model.get_weights(code, error_rate)`. -/
@@ -200,7 +200,7 @@ def updProbs : Vec → List Rat → List Rat → List Rat → List Rat
   | _, _, _, _ => []
 
 /-- immutable attributes of the decoder object -/
-structure BpDec where
+structure BpDec_dec where
   H : Mat
   n : Nat
   px : List Rat
@@ -220,7 +220,7 @@ structure BpSt where
 def BpSt.init : BpSt := ⟨false, none, none, none⟩
 
 /-- `initialize_decoders()` -/
-def BpDec.initialize (d : BpDec) (st : BpSt) : BpSt × List (Event Rat) :=
+def BpDec_dec.initialize (d : BpDec_dec) (st : BpSt) : BpSt × List (Event Rat) :=
   let c := d.cfg
   if isCss d.H then
     ({ st with initialized := true,
@@ -234,7 +234,7 @@ def BpDec.initialize (d : BpDec) (st : BpSt) : BpSt × List (Event Rat) :=
      [Event.ctor d.H false c.errorRate c.maxIter c.osdOrder c.bpMethod])
 
 /-- CSS branch of `decode` once both ldpc objects exist -/
-def BpDec.decodeCss (S : BpSolver) (d : BpDec) (xd zd : Ldpc) (s : Vec) :
+def BpDec_dec.decodeCss (S : BpSolver) (d : BpDec_dec) (xd zd : Ldpc) (s : Vec) :
     Ldpc × Ldpc × List (Event Rat) × Vec :=
   let sz := extractZSyndrome d.H s
   let sx := extractXSyndrome d.H s
@@ -258,7 +258,7 @@ def BpDec.decodeCss (S : BpSolver) (d : BpDec) (xd zd : Ldpc) (s : Vec) :
    xc ++ zc)
 
 /-- non-CSS branch: full matrix, priors `[pz+py | px+py]`, halves swapped back -/
-def BpDec.decodeFull (S : BpSolver) (d : BpDec) (dd : Ldpc) (s : Vec) :
+def BpDec_dec.decodeFull (S : BpSolver) (d : BpDec_dec) (dd : Ldpc) (s : Vec) :
     Ldpc × List (Event Rat) × Except DecErr Vec :=
   let probs := raddv d.pz d.py ++ raddv d.px d.py
   let dd1 := dd.update probs
@@ -270,7 +270,7 @@ def BpDec.decodeFull (S : BpSolver) (d : BpDec) (dd : Ldpc) (s : Vec) :
   else (dd1, [Event.update dd.matrix probs], .error .valueError)
 
 /-- body of `decode` after the lazy initialisation -/
-def BpDec.decodeReady (S : BpSolver) (d : BpDec) (st1 : BpSt) (s : Vec) :
+def BpDec_dec.decodeReady (S : BpSolver) (d : BpDec_dec) (st1 : BpSt) (s : Vec) :
     BpSt × List (Event Rat) × Except DecErr Vec :=
   if isCss d.H then
     -- `syndrome[self.z_indices]`
@@ -288,22 +288,22 @@ def BpDec.decodeReady (S : BpSolver) (d : BpDec) (st1 : BpSt) (s : Vec) :
     | none => (st1, [], .error .attributeError)
 
 /-- `if not self._initialized: self.initialize_decoders()` -/
-def BpDec.ready (d : BpDec) (st : BpSt) : BpSt × List (Event Rat) :=
+def BpDec_dec.ready (d : BpDec_dec) (st : BpSt) : BpSt × List (Event Rat) :=
   if st.initialized then (st, []) else d.initialize st
 
 /-- `BeliefPropagationOSDDecoder.decode(syndrome)` as a state machine. -/
-def BpDec.decode (S : BpSolver) (d : BpDec) (st0 : BpSt) (s : Vec) :
+def BpDec_dec.decode (S : BpSolver) (d : BpDec_dec) (st0 : BpSt) (s : Vec) :
     BpSt × List (Event Rat) × Except DecErr Vec :=
   let r := d.decodeReady S (d.ready st0).1 s
   (r.1, (d.ready st0).2 ++ r.2.1, r.2.2)
 
 /-- state after decoding a history of syndromes on one object -/
-def BpDec.run (S : BpSolver) (d : BpDec) (st : BpSt) : List Vec → BpSt
+def BpDec_dec.run (S : BpSolver) (d : BpDec_dec) (st : BpSt) : List Vec → BpSt
   | [] => st
-  | s :: rest => BpDec.run S d (d.decode S st s).1 rest
+  | s :: rest => BpDec_dec.run S d (d.decode S st s).1 rest
 
 /-- the correction as a function of the immutable attributes and the syndrome only -/
-def BpDec.pureDecode (S : BpSolver) (d : BpDec) (s : Vec) : Except DecErr Vec :=
+def BpDec_dec.pureDecode (S : BpSolver) (d : BpDec_dec) (s : Vec) : Except DecErr Vec :=
   if isCss d.H then
     if s.length = d.H.length then
       let zc := S.decode (Hx d.H) true (raddv d.pz d.py) (extractXSyndrome d.H s)
